@@ -696,6 +696,8 @@ class ExprMixin:
         return EMPTY
     if t.name == 'ChangeKind':
       return singleton('ChangeKind.' + name)
+    if t.name == 'PyrefPolicyError' and name == 'PRE_IMPORT':
+      return singleton('PyrefPolicyError.PRE_IMPORT')
     return BuiltinFn(f'{t.name}.{name}')
 
   PROPERTIES = {}   # attribute name -> (class, contract id) of a @property (filled by contracts)
